@@ -152,6 +152,51 @@ def check_generic(res, facts):
     one("CubicExtConfig::mul_base_field_by_nonresidue(default)", find(facts, U, C, "mul_base_field_by_nonresidue", default_of=CC), ["y"], lambda ex, p: [SX.q_of(p.ret)], [BETA * y], models(3))
 
 
+def check_cubic_norm(res, facts):
+    """CubicExtField::norm is the c0 coordinate of x * x^q * x^(q^2) (two Frobenius maps, not a polynomial kernel).  What
+    is decidable as an identity: any arm that returns WITHOUT the Frobenius product (a shortcut for special inputs) must
+    return the value the definition gives there -- for an element of the base field (c1 = c2 = 0) that is c0^3, since the
+    Frobenius maps fix it.  (c0^2, the quadratic formula, makes every base-field element look like a square to
+    legendre().)  The general arm must reach two frobenius_map_in_place calls and a product."""
+    from arklib import dataflow as DF
+    rule = res.rule("R-NORM.cubic", "CubicExtField::norm: the general arm is the c0 coordinate of the product with two Frobenius images; a shortcut arm returns the value of the definition (c0^3 on the base field)", 1)
+    fns = find(facts, "ws", "ark_ff", "norm", CUBIC)
+    key = "Cubic::norm"
+    if not fns:
+        rule.bad(key, "kernel not found (anchor missing)")
+        return
+    fn = fns[0]
+    ex = SX.Engine(facts, "ws", models(3), max_paths=60, inline_limit=60, max_depth=3)
+    paths = ex.run(fn, [arg("x", fn.local_ty(1))])
+    general, problems = 0, []
+    for p in paths:
+        if "panic" in p.flags:
+            continue
+        if any(f.startswith("unmodelled:frobenius") for f in p.flags):
+            general += 1
+            continue
+        got = SX.q_of(p.ret)
+        if got is None or p.flags & {"cut", "diverge", "top-branch"}:
+            problems.append("a returning path is not evaluable (%s)" % sorted(p.flags)[:3])
+            continue
+        zero_c = {v for v, val in p.st.subst.items() if v in ("x.c1", "x.c2") and hasattr(val, "is_zero") and val.is_zero()}
+        if zero_c == {"x.c1", "x.c2"}:
+            want = X3[0] * X3[0] * X3[0]
+            if not got.equals(want):
+                problems.append("on the arm c1 = c2 = 0 the code returns %s, but N(c0) = c0 * c0^q * c0^(q^2) = c0^3 for an element of the base field" % got)
+        else:
+            problems.append("an arm returns %s without forming the Frobenius product (assumptions %s)" % (got, [str(c) for c in p.assume][:4]))
+    names = [t["f"].get("name") for _, t in fn.calls()]
+    if names.count("frobenius_map_in_place") + names.count("frobenius_map") < 2 or not ({"mul", "mul_assign"} & set(names)):
+        problems.append("the general arm does not form x * frob(x, 1) * frob(x, 2) (calls %s)" % sorted(set(n for n in names if n))[:8])
+    if problems:
+        rule.bad(key, "; ".join(problems), fn.loc)
+    elif not general:
+        rule.undecided(key, "no general path found", fn.loc)
+    else:
+        rule.ok(key, "%d general path(s) through the Frobenius product; no shortcut arm, or shortcut arms equal c0^3" % general, fn.loc)
+
+
 def check_cycexp(res, facts):
     """cyclotomic exponentiation: signed (NAF) digits are produced only when INVERSE_IS_FAST, the only configuration in
     which the shared loop honours a negative digit (multiplies by the inverse); with INVERSE_IS_FAST = false the loop
@@ -243,6 +288,7 @@ def run(ctx, res):
     from rules import c02_towers
     c02_towers.check(res, facts)
     check_cycexp(res, facts)
+    check_cubic_norm(res, facts)
     from rules import lincomb
     lincomb.check_field_ops(res, facts, ("QuadExtField<", "CubicExtField<"), 56)
     return {
